@@ -431,7 +431,10 @@ class TermGen:
         self.sig = sig                      # name -> tuple type (with 'tv')
         self.names = sorted(sig)
         self.base = [("c", "bool", ()), ("c", "nat", ()), ("c", "int", ()), ("c", "real", ()),
-                     ("tv", "a"), ("tv", "b"), ("sv", "a"), ("c", "bool", ()), ("c", "nat", ())]
+                     ("tv", "a"), ("tv", "b"), ("sv", "a"), ("sv", "b"), ("c", "bool", ()), ("c", "nat", ()),
+                     ("tv", "a"), ("sv", "a")]
+        if rng.random() < 0.15:
+            self.base.append(("tv", "_t0"))     # a TVar whose name looks like an internal STVar
         self.strip = {}
         for n in self.names:
             T = sig[n]
@@ -492,7 +495,7 @@ class TermGen:
 
     def var_of(self, T):
         rng = self.rng
-        if rng.random() < 0.12:
+        if rng.random() < 0.2:
             pool, kind, pre = self.svars, "svar", "s"
         else:
             pool, kind, pre = self.vars, "var", "v"
@@ -500,7 +503,10 @@ class TermGen:
         if same and rng.random() < 0.75:
             return (kind, rng.choice(same), T)
         self.nv += 1
-        n = "%s%d" % (pre, self.nv)
+        n = "v%d" % self.rng.randint(1, self.nv)        # may coincide with a name of the other kind
+        while n in pool:
+            self.nv += 1
+            n = "v%d" % self.nv
         pool[n] = T
         return (kind, n, T)
 
@@ -750,7 +756,43 @@ def gen_handmade():
         ("arity:through-var", conj([app(C("equals"), x, ("var", "y", ("c", "list", (NAT,)))),
                                     app(C("equals"), x, ("var", "z", ("c", "list", (NAT, BOOL))))]), {}),
     ]
-    return [{"kind": "hand:" + k, "skel": t, "vars": v, "svars": {}, "forbid": True} for k, t, v in cases]
+    out = [{"kind": "hand:" + k, "skel": t, "vars": v, "svars": {}, "forbid": True} for k, t, v in cases]
+    TA, SA = ("tv", "a"), ("sv", "a")
+    LST = lambda T: ("c", "list", (T,))
+    T0 = ("tv", "_t0")
+    eq = lambda a, b: app(C("equals"), a, b)
+    sx = ("svar", "x", None)
+    mixed = [
+        # 'a and ?'a are different types
+        ("tvsv:declared", eq(("svar", "s", None), V("a")), {"a": TA}, {"s": SA}),
+        ("tvsv:declared-flip", eq(V("a"), ("svar", "s", None)), {"a": TA}, {"s": SA}),
+        ("tvsv:annot", eq(("var", "x", TA), ("var", "y", SA)), {}, {}),
+        ("tvsv:annot-flip", eq(("var", "x", SA), ("var", "y", TA)), {}, {}),
+        ("tvsv:nested", eq(("var", "x", LST(TA)), ("var", "y", LST(SA))), {}, {}),
+        ("tvsv:fun-arg", app(("var", "f", fun(TA, BOOL)), ("var", "y", SA)), {}, {}),
+        ("tvsv:fun-arg-flip", app(("var", "f", fun(SA, BOOL)), ("var", "y", TA)), {}, {}),
+        ("tvsv:through-var", conj([eq(x, ("var", "p", TA)), eq(x, ("var", "q", SA))]), {}, {}),
+        ("tvsv:through-const", eq(app(C("cons"), ("var", "p", TA), C("nil")), ("var", "l", LST(SA))), {}, {}),
+        ("tvsv:binder", app(("abs", "u", TA, ("bound", 0)), ("var", "q", SA)), {}, {}),
+        ("tvsv:ok-side-by-side", conj([eq(("var", "p", TA), x), eq(("var", "q", SA), y)]), {}, {}),
+        ("tvsv:ok-declared", conj([eq(("svar", "s", None), ("svar", "s2", SA)), eq(V("a"), ("var", "a2", TA))]), {"a": TA}, {"s": SA}),
+        ("tvsv:ok-pair", eq(app(C("cons"), ("var", "p", TA), C("nil")), ("var", "l", LST(TA))), {}, {}),
+        # a TVar called _t0 is an ordinary rigid type variable, not type_infer's internal ?'_t0
+        ("tv-internal-name:ok", eq(x, ("var", "y", T0)), {}, {}),
+        ("tv-internal-name:ok-flip", eq(("var", "y", T0), x), {}, {}),
+        ("tv-internal-name:clash", eq(("var", "y", T0), C("zero", NAT)), {}, {}),
+        ("tv-internal-name:declared", conj([eq(x, V("d")), eq(x, C("zero", NAT))]), {"d": T0}, {}),
+        ("tv-internal-name:ok-declared", eq(x, V("d")), {"d": LST(T0)}, {}),
+        # x and ?x are different variables
+        ("var-svar:undeclared", conj([eq(sx, C("zero", NAT)), x]), {}, {}),
+        ("var-svar:declared-clash", eq(sx, x), {"x": BOOL}, {"x": NAT}),
+        ("var-svar:declared-ok", conj([x, eq(sx, C("zero", NAT))]), {"x": BOOL}, {"x": NAT}),
+        ("var-svar:only-var-declared", conj([x, eq(sx, C("zero", NAT))]), {"x": BOOL}, {}),
+        ("var-svar:only-svar-declared", conj([x, eq(sx, C("zero", NAT))]), {}, {"x": NAT}),
+        ("var-svar:svar-declared-var-used-otherwise", eq(x, C("nil", LST(BOOL))), {}, {"x": NAT}),
+    ]
+    out += [{"kind": "hand:" + k, "skel": t, "vars": v, "svars": sv, "forbid": True} for k, t, v, sv in mixed]
+    return out
 
 
 def gen_random_skeletons(rng, sig, n):
@@ -758,7 +800,10 @@ def gen_random_skeletons(rng, sig, n):
     names = ["equals", "conj", "neg", "plus", "zero", "one", "cons", "nil", "member", "empty_set", "all", "exists",
              "IF", "comp_fun", "fun_upd", "image", "Suc", "of_nat", "less", "append", "insert", "union", "The"]
     names = [c for c in names if c in sig]
-    anns = [None, None, None, None, BOOL, NAT, fun(NAT, NAT), ("tv", "a"), ("c", "list", (("tv", "a"),))]
+    anns = [None, None, None, None, None, None, BOOL, NAT, fun(NAT, NAT), ("tv", "a"), ("c", "list", (("tv", "a"),)),
+            ("sv", "a"), ("c", "list", (("sv", "a"),)), fun(("sv", "a"), ("tv", "a"))]
+    dtypes = [BOOL, NAT, fun(NAT, BOOL), fun(("tv", "a"), ("tv", "a")), ("tv", "a"), ("sv", "a"), fun(("sv", "a"), ("sv", "a")),
+              ("c", "list", (("tv", "a"),)), ("c", "list", (("sv", "a"),)), fun(("tv", "a"), BOOL), fun(("sv", "a"), BOOL)]
 
     def go(d, nb):
         r = rng.random()
@@ -789,10 +834,13 @@ def gen_random_skeletons(rng, sig, n):
         k = rng.randint(1, 4)
         parts = [go(rng.randint(1, 3), 0) for _ in range(k)]
         sk = conj(parts) if rng.random() < 0.7 else app(C("equals"), parts[0], parts[-1])
-        decl = {}
+        decl, sdecl = {}, {}
+        if rng.random() < 0.4:
+            for _ in range(rng.randint(1, 2)):
+                decl[rng.choice("pqrs")] = rng.choice(dtypes)
         if rng.random() < 0.3:
-            decl[rng.choice("pqrs")] = rng.choice([BOOL, NAT, fun(NAT, BOOL), fun(("tv", "a"), ("tv", "a")), ("tv", "a")])
-        out.append({"kind": "random-skeleton", "skel": sk, "vars": decl, "svars": {}, "forbid": rng.random() < 0.9})
+            sdecl[rng.choice("pq")] = rng.choice(dtypes)
+        out.append({"kind": "random-skeleton", "skel": sk, "vars": decl, "svars": sdecl, "forbid": rng.random() < 0.9})
     return out
 
 
@@ -867,6 +915,195 @@ def gen_mutants(rng, sig, n, depth_max):
     return out
 
 
+def flip_tyvars(T):
+    """'a <-> ?'a"""
+    if T[0] == "tv":
+        return ("sv", T[1])
+    if T[0] == "sv":
+        return ("tv", T[1])
+    return ("c", T[1], tuple(flip_tyvars(a) for a in T[2]))
+
+
+def has_tyvar(T):
+    return T[0] in ("tv", "sv") or (T[0] == "c" and any(has_tyvar(a) for a in T[2]))
+
+
+def gen_tvsv(rng, sig, n, depth_max):
+    """well-typed terms in which ONE declared (schematic) variable gets its type variables flipped between
+    'a and ?'a: the rest of the term still uses the other kind, so most of these are ill-typed"""
+    g = TermGen(rng, sig)
+    out = []
+    tries = 0
+    while len(out) < n and tries < 50 * n:
+        tries += 1
+        orig = g.new_term(rng.randint(1, depth_max))
+        cands = [("var", k) for k, T in g.vars.items() if has_tyvar(T)] + [("svar", k) for k, T in g.svars.items() if has_tyvar(T)]
+        if not cands:
+            continue
+        kind, name = rng.choice(cands)
+        dv, ds = dict(g.vars), dict(g.svars)
+        pool = dv if kind == "var" else ds
+        pool[name] = flip_tyvars(pool[name])
+        lvl = rng.choice([(1, 0, 0), (1, 0, 0), (1, 1, 0), (1, 1, 1), (1, 0.5, 0.5)])
+        sk = erase(orig, rng, *lvl)
+        out.append({"kind": "tvsv-flip", "skel": sk, "vars": dv, "svars": ds, "forbid": True})
+    return out
+
+
+# ====================================================================== histories: several theories in one process
+LIB_THEORIES = ["logic_base", "logic", "nat", "set", "list", "function", "int"]
+REDECLARABLE = ["plus", "zero", "nil", "cons", "member", "conj", "neg", "Suc", "append", "union", "true", "one", "times", "empty_set"]
+
+
+def gen_sig_type(_g, rng):
+    """a random most-general type for a generated constant ('a, 'b allowed, no schematic type variables)"""
+    def rt(d):
+        r = rng.random()
+        if d == 0 or r < 0.5:
+            return rng.choice([BOOL, NAT, ("tv", "a"), ("tv", "b"), ("tv", "a"), ("c", "int", ())])
+        if r < 0.65:
+            return ("c", "list", (rt(d - 1),))
+        if r < 0.75:
+            return ("c", "set", (rt(d - 1),))
+        return ("c", "fun", (rt(d - 1), rt(d - 1)))
+    k = rng.choice([0, 1, 1, 2, 2, 3])
+    return fun(*([rt(1) for _ in range(k)] + [rt(2)]))
+
+
+def setup_theory(step):
+    """Switch the global theory as the step says; returns the signature that is now current (read from the
+    theory's own `term_sig` table, not through get_term_sig)."""
+    from kernel import theory
+    from logic import basic
+    kind = step["theory"]
+    if kind.startswith("load:"):
+        basic.load_theory(kind[5:])
+    elif kind == "empty":
+        theory.thy = theory.EmptyTheory()
+    elif kind == "keep":
+        pass
+    for n, T in step.get("decls", []):
+        theory.thy.add_term_sig(n, ty_obj(T))
+    return {n: ty_tup(T) for n, T in theory.thy.get_data("term_sig").items()}
+
+
+def term_with_const(g, rng, cname, depth):
+    """a well-typed boolean term `c args = rhs` that certainly mentions the constant cname"""
+    S = g.sig[cname]
+    m = g.fill(S, {})
+    t = ("const", cname, g.inst(S, m))
+    pre, R = g.strip[cname][-1]
+    k = rng.randint(0, len(pre))
+    pre, R = g.strip[cname][k]
+    for A in pre:
+        t = ("comb", t, g.gen(g.inst(A, m), [], depth - 1))
+    RT = g.inst(R, m)
+    eqT = fun(RT, RT, BOOL)
+    return app(("const", "equals", eqT), t, g.gen(RT, [], depth - 1))
+
+
+def plan_history(rng, hid):
+    """a list of step plans (theory switch + names to declare); types and terms are generated when the step
+    runs, from the signature that is then current"""
+    own = ["k%d_%d" % (hid, i) for i in range(2)]
+    steps = []
+    n = rng.randint(2, 4)
+    absolute = False         # has a step of this history already fixed the global theory?
+    for i in range(n):
+        r = rng.random()
+        if r < 0.3:
+            steps.append({"theory": "load:" + rng.choice(LIB_THEORIES), "names": [], "focus": None, "fresh": False})
+            absolute = True
+        else:
+            names = list(own)
+            if rng.random() < 0.6:
+                names.append(rng.choice(REDECLARABLE))
+            fresh = rng.random() < 0.4
+            steps.append({"theory": "empty", "names": names, "focus": rng.choice(names), "fresh": fresh})
+            if fresh and absolute and rng.random() < 0.6:
+                # after `with fresh_theory()` the previous theory is back: infer there again
+                steps.append({"theory": "keep", "names": [], "focus": None, "fresh": False})
+            if not fresh:
+                absolute = True
+    if sum(1 for st in steps if st["theory"] == "empty") < 2:
+        steps.append({"theory": "empty", "names": list(own), "focus": own[0], "fresh": rng.random() < 0.5})
+    return steps
+
+
+def run_step(ctx, step, do_cases):
+    """set the theory up as the step says (inside `with fresh_theory()` if asked) and call do_cases(current sig)"""
+    from kernel import theory
+    if step.get("fresh"):
+        with theory.fresh_theory():
+            do_cases(setup_theory({"theory": "keep", "decls": step["decls"]}))
+    else:
+        do_cases(setup_theory(step))
+
+
+def run_histories(ctx, rng, nhist, limit=5):
+    """Each history switches between theories inside this process: library theories via load_theory, generated
+    signatures via EmptyTheory() / `with fresh_theory()` + add_term_sig, the same constant names declared with
+    different types in different steps.  Every inference is judged against the signature current at that moment."""
+    from logic import basic
+    batch, batch_sigs, batch_res = [], [], []
+    for hid in range(nhist):
+        done = []           # replayable record of the steps so far
+        for st in plan_history(rng, hid):
+            step = {"theory": st["theory"], "decls": [(nm, gen_sig_type(None, rng)) for nm in st["names"]],
+                    "fresh": st["fresh"], "cases": []}
+            done.append(step)
+
+            def do_cases(cur, st=st, step=step):
+                g = TermGen(rng, cur)
+                focus = st["focus"]
+                if focus is None:
+                    lib = [c for c in REDECLARABLE if c in cur]
+                    focus = rng.choice(lib) if lib and rng.random() < 0.8 else rng.choice(sorted(cur))
+                for _ in range(2):
+                    g.vars, g.svars, g.nv = {}, {}, 0
+                    orig = term_with_const(g, rng, focus, rng.randint(1, 3))
+                    for name, pv, pb, pc in (("consts", 0, 0, 1), ("all", 1, 1, 1), ("random", 0.5, 0.5, 0.7)):
+                        case = {"kind": "history:" + name, "orig": orig, "skel": erase(orig, rng, pv, pb, pc),
+                                "vars": dict(g.vars), "svars": dict(g.svars), "forbid": True, "declared": True,
+                                "must_recover": False, "history": done}
+                        step["cases"].append({k: case[k] for k in ("kind", "orig", "skel", "vars", "svars", "forbid")})
+                        res = oracle(ctx, case, run_impl(case, limit), cur)
+                        ctx.case(("history", hid, case_key(case)), nontrivial=True)
+                        ctx.count("history:%s%s:%s" % (step["theory"].split(":")[0], "+fresh" if step["fresh"] else "",
+                                                       res[0] if res[0] != "error" else res[1].split(":")[0]))
+                        batch.append(case)
+                        batch_sigs.append(cur)
+                        batch_res.append(res)
+            run_step(ctx, step, do_cases)
+    basic.load_theory(THEORY)
+    if batch:
+        out = ctx.lean_driver(EXE, [request_line(c, sg) for c, sg in zip(batch, batch_sigs)])
+        if out is None:
+            return False
+        compare_model(ctx, batch, batch_res, out, "history")
+    return True
+
+
+def replay_history(ctx, history, limit=60):
+    """re-run a recorded history step by step; every recorded inference is judged again"""
+    from logic import basic
+    for step in history:
+        step = dict(step)
+        step["decls"] = [(n, from_json(T)) for n, T in step["decls"]]
+
+        def do_cases(cur, step=step):
+            for c in step["cases"]:
+                case = {"kind": c["kind"], "orig": from_json(c["orig"]), "skel": from_json(c["skel"]),
+                        "vars": {k: from_json(v) for k, v in c["vars"].items()}, "svars": {k: from_json(v) for k, v in c["svars"].items()},
+                        "forbid": c["forbid"], "declared": True, "must_recover": False}
+                res = run_impl(case, limit)
+                print("step %s%s: %s -> %s" % (step["theory"], " (with fresh_theory)" if step.get("fresh") else "", tm_str(case["skel"]),
+                                               res if res[0] != "ok" else tm_str(res[1])))
+                oracle(ctx, case, res, cur)
+        run_step(ctx, step, do_cases)
+    basic.load_theory(THEORY)
+
+
 # ====================================================================== oracle
 def case_key(case):
     return "%s|%s|%s|%s" % (tm_str(case["skel"]), sorted((k, ty_str(v)) for k, v in case["vars"].items()),
@@ -880,6 +1117,9 @@ def replay_dict(case, res, extra=None):
         d["orig"] = case["orig"]
         d["declared"] = case.get("declared")
         d["must_recover"] = case.get("must_recover")
+    if "history" in case:
+        # the steps (theory switches, declarations, inferences) that preceded and include this inference
+        d["history"] = json.loads(json.dumps(case["history"]))
     if extra:
         d.update(extra)
     return d
@@ -894,6 +1134,13 @@ def oracle(ctx, case, res, sig, limit_confirm=60):
     """Judges the implementation's result on one skeleton. Returns the (possibly re-run) result."""
     key = case_key(case)
     skel = case["skel"]
+
+    def viol(k, what, rp):
+        if "history" in case:
+            # one class per kind of failure: what goes wrong depends on the preceding theory switches, not on the skeleton
+            k = "history:" + k.split(":")[0]
+            what = "after %d theory switches in this process: %s" % (len(case["history"]), what)
+        return ctx.violation(k, what, rp)
     if res[0] == "timeout":
         # confirm with a long limit, but only a few times per run (a broken tree may hang on many inputs)
         nconf = getattr(ctx, "_c08_confirmations", 0)
@@ -903,7 +1150,7 @@ def oracle(ctx, case, res, sig, limit_confirm=60):
         ctx._c08_confirmations = nconf + 1
         res2 = run_impl(case, limit_confirm)
         if res2[0] == "timeout":
-            ctx.violation("occurs-check-escaped" if ref_infer(case, sig) == ("untypable", "occurs") else "hang:" + key, "type_infer does not return within %d s on %s" % (limit_confirm, tm_str(skel)),
+            viol("occurs-check-escaped" if ref_infer(case, sig) == ("untypable", "occurs") else "hang:" + key, "type_infer does not return within %d s on %s" % (limit_confirm, tm_str(skel)),
                           replay_dict(case, res2))
             return res2
         res = res2
@@ -911,7 +1158,7 @@ def oracle(ctx, case, res, sig, limit_confirm=60):
     if has_arity_mismatch(case):
         # one defect class: the same type constructor applied to different numbers of arguments
         if (res[0] == "error" and res[1] not in OWN_ERRORS) or (res[0] == "ok" and isinstance(res[2], tuple) and res[2][:1] == ("illtyped",)):
-            ctx.violation("type-constructor-arity-mismatch", "type_infer(%s): %s" % (tm_str(skel), res[1] if res[0] == "error" else
+            viol("type-constructor-arity-mismatch", "type_infer(%s): %s" % (tm_str(skel), res[1] if res[0] == "error" else
                           "returns a term that does not type-check"), replay_dict(case, res))
             return res
     if res[0] == "error":
@@ -919,24 +1166,24 @@ def oracle(ctx, case, res, sig, limit_confirm=60):
         if cls not in OWN_ERRORS:
             if ref == ("untypable", "occurs"):
                 # one defect class: a cyclic type equation escapes the occurs check and the final loop diverges
-                ctx.violation("occurs-check-escaped", "cyclic type not detected, type_infer ends with %s on %s" % (cls, tm_str(skel)),
+                viol("occurs-check-escaped", "cyclic type not detected, type_infer ends with %s on %s" % (cls, tm_str(skel)),
                               replay_dict(case, res))
                 return res
-            ctx.violation("crash:%s:%s" % (cls.split(":", 1)[1], key),
+            viol("crash:%s:%s" % (cls.split(":", 1)[1], key),
                           "type_infer neither returns nor fails with its own error (%s) on %s" % (cls, tm_str(skel)),
                           replay_dict(case, res))
             return res
         if "orig" in case and cls != "unspecified":
-            ctx.violation("erasure-rejected:%s:%s" % (cls, key),
+            viol("erasure-rejected:%s:%s" % (cls, key),
                           "erasure of a well-typed term rejected with '%s': %s" % (cls, tm_str(skel)), replay_dict(case, res))
         elif case.get("must_recover"):
-            ctx.violation("not-recovered:%s" % key, "constant and binder types kept, variables declared, yet type_infer reports '%s' on %s"
+            viol("not-recovered:%s" % key, "constant and binder types kept, variables declared, yet type_infer reports '%s' on %s"
                           % (cls, tm_str(skel)), replay_dict(case, res))
         elif case["forbid"] and ref[0] == "ok":
-            ctx.violation("typable-rejected:%s:%s" % (cls, key), "skeleton has a fully determined typing but type_infer reports '%s': %s"
+            viol("typable-rejected:%s:%s" % (cls, key), "skeleton has a fully determined typing but type_infer reports '%s': %s"
                           % (cls, tm_str(skel)), replay_dict(case, res, {"reference": ref[1]}))
         elif case["forbid"] and ref[0] == "under" and cls != "unspecified":
-            ctx.violation("typable-rejected:%s:%s" % (cls, key), "skeleton is typable (under-determined) but type_infer reports '%s': %s"
+            viol("typable-rejected:%s:%s" % (cls, key), "skeleton is typable (under-determined) but type_infer reports '%s': %s"
                           % (cls, tm_str(skel)), replay_dict(case, res, {"reference": ref[1]}))
         return res
     # ---- a term was returned
@@ -978,17 +1225,17 @@ def oracle(ctx, case, res, sig, limit_confirm=60):
             if left:
                 bad.append("internal type variables left: %s" % sorted(left))
     if bad:
-        ctx.violation("bad-result:" + key, "type_infer(%s) = %s: %s" % (tm_str(skel), tm_str(rt), "; ".join(bad)),
+        viol("bad-result:" + key, "type_infer(%s) = %s: %s" % (tm_str(skel), tm_str(rt), "; ".join(bad)),
                       replay_dict(case, res, {"why": bad}))
         return res
     if "orig" in case and rt != case["orig"]:
-        ctx.violation("erasure-not-recovered:" + key, "erasure of %s inferred as a different term %s" % (tm_str(case["orig"]), tm_str(rt)),
+        viol("erasure-not-recovered:" + key, "erasure of %s inferred as a different term %s" % (tm_str(case["orig"]), tm_str(rt)),
                       replay_dict(case, res))
     elif case["forbid"] and ref[0] == "ok" and ref[1] != rt:
-        ctx.violation("not-principal:" + key, "type_infer(%s) = %s but the principal typing is %s" % (tm_str(skel), tm_str(rt), tm_str(ref[1])),
+        viol("not-principal:" + key, "type_infer(%s) = %s but the principal typing is %s" % (tm_str(skel), tm_str(rt), tm_str(ref[1])),
                       replay_dict(case, res, {"reference": ref[1]}))
     elif case["forbid"] and ref[0] in ("untypable", "under"):
-        ctx.violation("accepted-%s:%s" % (ref[0], key), "type_infer(%s) = %s but the reference says %s" % (tm_str(skel), tm_str(rt), ref[0]),
+        viol("accepted-%s:%s" % (ref[0], key), "type_infer(%s) = %s but the reference says %s" % (tm_str(skel), tm_str(rt), ref[0]),
                       replay_dict(case, res, {"reference": ref[1] if ref[0] == "under" else None}))
     return res
 
@@ -1048,6 +1295,11 @@ def check_cases(ctx, cases, sig, label, limit=5):
     out = ctx.lean_driver(EXE, lines) if lines else []
     if out is None or (lines and out and out[0] == "bad-op" and all(o == "bad-op" for o in out)):
         return False
+    compare_model(ctx, cases, results, out, label)
+    return True
+
+
+def compare_model(ctx, cases, results, out, label):
     ndis = 0
     for case, res, line in zip(cases, results, out):
         m = parse_model(line)
@@ -1063,7 +1315,6 @@ def check_cases(ctx, cases, sig, label, limit=5):
                 ctx.broken("correspondence:c08:" + label, "skeleton=%s vars=%s impl=%s model=%s" % (
                     tm_str(case["skel"]), {k: ty_str(v) for k, v in case["vars"].items()},
                     want if want[0] != "ok" else tm_str(want[1]), m if m[0] != "ok" else tm_str(m[1])))
-    return True
 
 
 # ====================================================================== main
@@ -1096,7 +1347,12 @@ def run(ctx):
         "each erased at six levels (variable / binder / constant types, all, variables+binders, random half) with the variables declared or "
         "partly undeclared; (b) occurs-check cycles of length 1-4 in six styles, every atom order, closed and open; (c) hand-made clashes, wrong "
         "argument counts, type-constructor arity mismatches; (d) random untyped skeletons over four variable names; (e) well-typed terms with "
-        "one structural damage, erased. Non-trivial = skeleton has at least 4 nodes; distinct by skeleton + context.")
+        "one structural damage, erased; (f) histories: 2-5 theory switches inside this process (load_theory of library theories, "
+        "EmptyTheory() / `with fresh_theory()` + add_term_sig of generated constants and of library constant names re-declared at other "
+        "types), erasures of well-typed terms over the signature current at each step, judged against that signature; (g) mixed kinds of "
+        "type variables: declared variables over 'a / 'b and schematic variables over ?'a / ?'b with equal names, a TVar called _t0, x and ?x "
+        "with the same name, in hand-made clashes and in well-typed terms where one declared variable has 'a and ?'a exchanged. "
+        "Non-trivial = skeleton has at least 4 nodes; distinct by skeleton + context.")
     proofs_ok = ctx.lean_props(["Holpy.C08.Props"], exes=[EXE])
     if ctx.tier == "thorough" and proofs_ok:
         ctx.lean_check_modules(["Holpy.C08.Props"])
@@ -1108,7 +1364,9 @@ def run(ctx):
         "annotations, declared types and signature types contain no schematic type variable whose name starts with '_t' "
         "(infertype reserves these names; `?'_t0` in user input collides with its internal variables)",
         "skeletons are closed (no loose bound variable) and context.ctxt.defs is empty (the definition-parsing path is not modelled)",
-        "termination of unify is not proved (fuel); only the final substitution loop is proved to terminate"]
+        "termination of unify is not proved (fuel); only the final substitution loop is proved to terminate",
+        "the model takes the signature as a parameter (Ctx.sig): that type_infer reads the signature of the theory current at the time "
+        "of the call (no state kept between calls or theories) is checked by the history stream, not proved"]
     sig = load_sig(ctx)
     have_model = True
     corpus = load_corpus(ctx)
@@ -1116,6 +1374,9 @@ def run(ctx):
         have_model &= check_cases(ctx, corpus, sig, "corpus")
     hand = gen_handmade()
     have_model &= check_cases(ctx, hand, sig, "hand")
+    have_model &= run_histories(ctx, ctx.rng("histories"), ctx.scale(120, 1500))
+    tv = gen_tvsv(ctx.rng("tvsv"), sig, ctx.scale(300, 5000), 3)
+    have_model &= check_cases(ctx, tv, sig, "tvsv")
     cyc = gen_cycles(ctx.rng("cycles"), ctx.tier == "thorough")
     have_model &= check_cases(ctx, cyc, sig, "cycles")
     er = gen_erasures(ctx.rng("erasures"), sig, ctx.scale(500, 15000), 4)
@@ -1136,6 +1397,12 @@ def replay(ctx, rp):
     """Re-run one recorded failing input on the implementation; returns True if it still fails."""
     r = rp["replay"]
     sig = load_sig(ctx)
+    if "history" in r:
+        ctx._nreplay = 1000
+        replay_history(ctx, r["history"])
+        for v in ctx.violations:
+            print("still fails:", v[1])
+        return bool(ctx.violations)
     case = {"kind": r["kind"], "skel": from_json(r["skel"]), "vars": {k: from_json(v) for k, v in r["vars"].items()},
             "svars": {k: from_json(v) for k, v in r["svars"].items()}, "forbid": r["forbid"]}
     if "orig" in r:
@@ -1167,7 +1434,8 @@ MANIFEST = {
             "reference unifier on generated inputs, not proved; termination of unify is not proved (fuel) - only the final loop; "
             "context.ctxt.defs (definition parsing) and infer_printed_type are not modelled; reserved names: a user type variable "
             "called ?'_tN collides with type_infer's internal variables (KeyError / wrong type), excluded by hypothesis; an annotated "
-            "occurrence (x::T) is a distinct variable from an unannotated x (kernel identity name+type) and may get another type.",
+            "occurrence (x::T) is a distinct variable from an unannotated x (kernel identity name+type) and may get another type. "
+            "History independence (each call sees the signature of the current theory only) is tested by in-process theory-switch histories.",
     "design_ref": "DESIGN.md 4/C08",
 }
 FINDINGS = [
